@@ -126,6 +126,8 @@ type Interp struct {
 	MaxDep  int
 	Cur     *Frame
 	Client  any // engine state of this path
+	// Edge is called on every control transfer inside the interpreted functions.
+	Edge func(in *Interp, fr *Frame, from, to *ssa.BasicBlock) bool
 	ncell   int
 }
 
@@ -277,8 +279,33 @@ func (in *Interp) CallFn(fn *ssa.Function, args []Val, bind []Val, site ssa.Inst
 			fr.Regs[fv] = bind[i]
 		}
 	}
-	var prev *ssa.BasicBlock
-	b := fn.Blocks[0]
+	return in.runBlocks(fr, fn.Blocks[0], nil)
+}
+
+// RunFrom interprets fn starting at block start (as if entered from block
+// prev) with the given register environment. Used to evaluate one region of a
+// large function (a case clause of a dispatch loop) in isolation. Edge is
+// called on every control transfer; returning true ends the path with kind
+// "stop".
+func (in *Interp) RunFrom(fn *ssa.Function, start, prev *ssa.BasicBlock, regs map[ssa.Value]Val) (res Val, end *PathEnd) {
+	defer func() {
+		if r := recover(); r != nil {
+			if pe, ok := r.(*PathEnd); ok {
+				end = pe
+				return
+			}
+			panic(r)
+		}
+	}()
+	fr := &Frame{Fn: fn, Regs: regs}
+	in.Cur = fr
+	in.Depth++
+	defer func() { in.Cur = nil; in.Depth-- }()
+	return in.runBlocks(fr, start, prev), nil
+}
+
+func (in *Interp) runBlocks(fr *Frame, b, prev *ssa.BasicBlock) Val {
+	fn := fr.Fn
 	for {
 		var next *ssa.BasicBlock
 		for _, ins := range b.Instrs {
@@ -335,6 +362,9 @@ func (in *Interp) CallFn(fn *ssa.Function, args []Val, bind []Val, site ssa.Inst
 		}
 		if next == nil {
 			in.Undecided("fell off block", nil)
+		}
+		if in.Edge != nil && in.Edge(in, fr, b, next) {
+			panic(&PathEnd{Kind: "stop", Msg: fmt.Sprintf("block %d -> %d", b.Index, next.Index)})
 		}
 		prev, b = b, next
 	}
@@ -508,7 +538,7 @@ func (in *Interp) step(fr *Frame, ins ssa.Instruction) {
 				}
 			}
 			if s, ok := p.(*Sym); ok {
-				fr.Regs[x] = &Sym{Op: fmt.Sprintf("field%d", x.Field), Args: []Val{s}, T: x.Type()}
+				fr.Regs[x] = &Sym{Op: FieldOp(x.X.Type(), x.Field), Args: []Val{s}, T: x.Type()}
 				return
 			}
 			if IsNil(p) {
@@ -522,7 +552,7 @@ func (in *Interp) step(fr *Frame, ins ssa.Instruction) {
 		case *Struct:
 			fr.Regs[x] = ss.F[x.Field]
 		case *Sym:
-			fr.Regs[x] = &Sym{Op: fmt.Sprintf("field%d", x.Field), Args: []Val{ss}, T: x.Type()}
+			fr.Regs[x] = &Sym{Op: FieldOp(x.X.Type(), x.Field), Args: []Val{ss}, T: x.Type()}
 		default:
 			fr.Regs[x] = Top{fmt.Sprintf("Field of %T", s)}
 		}
